@@ -165,6 +165,29 @@ pub fn determinism_one(seed: u64) -> Result<u64, (&'static str, String)> {
                 return Err(("copy", format!("draw {i} of the original after its copy was drawn from (seed {seed}) is {x}, the reference stream has {}", reference[i])));
             }
         }
+        // a generator built from the same seed on ANOTHER thread, and one built here and drawn from there
+        // (a thread's identity is not part of the seed); every 16th seed of the dense part and every
+        // structured / boundary seed
+        if seed % 16 == 0 || seed > (1 << 17) {
+            let built_there: Vec<u64> = std::thread::spawn(move || {
+                let mut g = Rng::from_seed(seed);
+                (0..STREAM_LEN).map(|i| draw(&mut g, i)).collect()
+            })
+            .join()
+            .map_err(|_| ("other_thread", format!("a generator built from seed {seed} on another thread panicked")))?;
+            let mut moved = Rng::from_seed(seed);
+            let drawn_there: Vec<u64> = std::thread::spawn(move || (0..STREAM_LEN).map(|i| draw(&mut moved, i)).collect())
+                .join()
+                .map_err(|_| ("other_thread", format!("a generator from seed {seed} moved to another thread panicked")))?;
+            for i in 0..STREAM_LEN {
+                if built_there[i] != reference[i] {
+                    return Err(("other_thread", format!("draw {i} of a generator built from seed {seed} on another thread is {}, the one built on this thread gave {}", built_there[i], reference[i])));
+                }
+                if drawn_there[i] != reference[i] {
+                    return Err(("other_thread", format!("draw {i} of a generator built here from seed {seed} and drawn from on another thread is {}, drawn here it gave {}", drawn_there[i], reference[i])));
+                }
+            }
+        }
         let bytes: Vec<u8> = reference.iter().flat_map(|x| x.to_le_bytes()).collect();
         Ok(fnv(&bytes))
     });
